@@ -13,7 +13,7 @@ ID = "C12"
 RULE = ("E-INPUT: every (domain, range, query) with domain/range end points from 13 floats of magnitude 1e-6..1e9 (both signs, "
         "both orders, a != b) + a seeded value + near-tie domains v..v(1+2^-40|1e-10|3e-7), queries = end points, interior and exterior points; exact affine reference in "
         "rationals; clamp on/off; for every ordered pair of the integers and halves -10..20 and m in {default,2,3,5,8,20}: domain, range, [clamp], nice(m), then the map through the reported domain. E-HIST: BFS over every history of domain(7)/range(6)/clamp(2)/nice()/nice(2)/nice(3)/interpolate(linear)/copy()/deepcopy()/getter read-modify-write/caller-kept lists/one-shot iterators calls on "
-        "a pool of <=3 scales up to the depth bound (quick 4; thorough 5, and 6 for the core alphabet of 4 domains, 4 ranges, clamp, nice, copy), each state rebuilt by replaying the history on fresh "
+        "a pool of <=3 scales up to the depth bound (quick 4; thorough 5, and 7 for the core alphabet of 4 domains, 4 ranges, clamp, nice, copy), each state rebuilt by replaying the history on fresh "
         "real objects, dedup by object-graph fingerprint incl. aliasing; invariants: end points of the reported domain map to "
         "the reported range (method and call form), with clamping enabled outputs stay inside the range, operations on one scale leave every other scale's observations unchanged. "
         "Non-trivial (E-HIST): transitions on pools with >= 2 scales; (E-INPUT): query not an end point.")
@@ -337,12 +337,12 @@ def plan(tier, seed):
     for r in range(n):
         shards.append({"kind": "grid", "mod": n, "rem": r, "seed": seed})
     # quick: the full alphabet to depth 4; thorough: the full alphabet to depth 5 and the core alphabet (4 domains, 4 ranges,
-    # clamp on/off, nice(), nice(3), copy()) to depth 6 - the full alphabet at depth 6 is beyond a few hours
+    # clamp on/off, nice(), nice(3), copy()) to depth 7 - the full alphabet at depth 6 is beyond a few hours
     for op in OPS:
         shards.append({"kind": "hist", "prefix": [[0, op[0], op[1]]], "depth": 4 if tier == "quick" else 5})
     if tier == "thorough":
         for op in CORE_OPS:
-            shards.append({"kind": "hist", "prefix": [[0, op[0], op[1]]], "depth": 6, "ops": "core"})
+            shards.append({"kind": "hist", "prefix": [[0, op[0], op[1]]], "depth": 7, "ops": "core"})
     return shards
 
 
